@@ -196,6 +196,9 @@ def hmf_data(case):
         iv[(seed + 3 * q) % N, :] = (4.0, 0.25, 2.5)[q % 3]
     for q in range(case.get('dead_edge', 0)):
         iv[:, q // 2 if q % 2 == 0 else M - 1 - q // 2] = 0.0
+    if case.get('dead_mid'):
+        # one pixel inside the range that is masked in every spectrum (a bad column, a sky line): HMF works on the longest run of usable pixels
+        iv[:, (seed % 5) + 4] = 0.0
     # flux units: the same spectra in units S times smaller (values S times larger, inverse variances S^2 times smaller)
     S = case.get('scale', 1.0)
     return sp * S, iv / S ** 2
@@ -278,6 +281,7 @@ def hmf_solve_case(draw):
     if nn and draw(st.booleans()):
         base['epsilon'] = draw(st.sampled_from([10.0, 100.0, 1e4]))        # a strong smoothness penalty (non-negative mode only)
     base['dead_edge'] = draw(st.sampled_from([0, 0, 1, 2, 3]))
+    base['dead_mid'] = draw(st.sampled_from([False, False, True]))
     return dict(base, nonnegative=nn, hseed=draw(st.sampled_from([0, 7, 12345, 1, 0])), n_iter=draw(st.sampled_from([3, 5])),
                 state1=draw(st.integers(1, 10 ** 6)), state2=draw(st.integers(1, 10 ** 6)))
 
